@@ -14,6 +14,12 @@ pub fn verif_err_from<E>(e: E) -> anyhow::Error { unimplemented!() }
 /// R3: `format!(..)` produces an opaque string
 #[verifier::external_body]
 pub fn verif_string() -> String { unimplemented!() }
+/// R3b: `format!("{}:{}", host, port)`: the text "host:port" as a named function of its two operands
+pub uninterp spec fn host_port(host: Seq<char>, port: u16) -> Seq<char>;
+#[verifier::external_body]
+pub fn verif_host_port(host: &String, port: u16) -> (r: String)
+    ensures r@ == host_port(host@, port)
+{ unimplemented!() }
 /// R7: `panic!`, `unreachable!` : reaching one is a failed obligation
 #[verifier::external_body]
 pub fn verif_panic() -> !
